@@ -134,6 +134,32 @@ func enumeratePlans(counts map[string]int, rounds []roundOps, r *eng.Rng, budget
 			}
 		}
 	}
+	// A Stat failure while a leveled compaction is being sized makes moss
+	// fall back to a full compaction (a different sequence of operations from
+	// the clean run): combine it with a failure of one of the first syncs of
+	// that compaction - the file it abandons must not survive as the newest
+	// data file.
+	var forced [][]eng.Fault
+	for _, ro := range rounds {
+		if ro.Kind != "partial" || ro.To["stat"] <= ro.From["stat"] {
+			continue
+		}
+		for j := 0; j < 4; j++ {
+			plan := []eng.Fault{{Kind: "stat", Ordinal: ro.From["stat"], Count: 1, Mode: "err"},
+				{Kind: "sync", Ordinal: ro.From["sync"] + j, Count: 1, Mode: "err"}}
+			if j%2 == 0 {
+				plan = append(plan, eng.Fault{Kind: "cut"})
+			}
+			forced = append(forced, plan)
+		}
+	}
+	if len(forced) > 16 {
+		for i := len(forced) - 1; i > 0; i-- {
+			j := r.Intn(i + 1)
+			forced[i], forced[j] = forced[j], forced[i]
+		}
+		forced = forced[:16]
+	}
 	if len(must) > 60 {
 		for i := len(must) - 1; i > 0; i-- {
 			j := r.Intn(i + 1)
@@ -141,6 +167,7 @@ func enumeratePlans(counts map[string]int, rounds []roundOps, r *eng.Rng, budget
 		}
 		must = must[:60]
 	}
+	must = append(must, forced...)
 	type km struct{ kind, mode string }
 	kinds := []km{{"write", "err"}, {"write", "short"}, {"sync", "err"}, {"create", "err"}, {"stat", "err"}}
 	for _, k := range kinds {
@@ -176,6 +203,8 @@ func enumeratePlans(counts map[string]int, rounds []roundOps, r *eng.Rng, budget
 	}
 	if budget > 0 {
 		plans = append(must, plans...)
+	} else {
+		plans = append(plans, forced...)
 	}
 	return plans
 }
